@@ -74,6 +74,7 @@ func (c *Collection) subdocWrite(key string, subdocKey string, cas CAS, value an
 		// Get doc (if it exists) to change sub doc value in
 		var fullDoc map[string]any
 		casOut, err = c.Get(key, &fullDoc)
+		verifPoint("subdoc.afterread", key, casOut)
 		var missingError sgbucket.MissingError
 		if err != nil && !(!insert && errors.As(err, &missingError)) {
 			return 0, err // SubdocInsert should fail if doc doesn't exist; WriteSubDoc doesn't
